@@ -34,7 +34,7 @@ WORKERS = {"quick": 8, "thorough": 16}
 WATCHDOG = {"quick": 900, "thorough": 3300}
 REQUIRED = {"free-coupling": 5, "fixed-coupling": 5, "free-parameter": 5, "fixed-parameter": 5, **{f"lineshape:{k}": 3 for k in A.LS_KINDS}, "spline-array": 3,
             "kmatrix-arrays": 3, "entry:returned-string": 10, "entry:printed": 10, "entry:command-line": 2, "shipped-model": 1, "python-executed": 10,
-            "cross-language-compared": 10}
+            "cross-language-compared": 10, "file-converted-again-after-another": 5, "converters-with-different-histories": 2}
 ASSUMPTIONS = ["GooFit itself is not installed: the Python output runs against a recording stand-in whose vocabulary (Variable, DecayInfo4, Lineshapes.*, FF, SpinFactor, "
                "SF_4Body.*, Amplitude, every M_ab / M_ab_c) is taken from the stored reference output",
                "the shipped model does not define the K-matrix parameter sA0 (symbol sA_0): that one symbol is exempt from def-before-use for the shipped file, by name"]
@@ -101,8 +101,41 @@ def models_differ(c, p):
     return out
 
 
+_prev: dict = {}
+
+
+def again_after_another_file(ctx):
+    """The previous case's file (still on disk, untouched) converted again after another file went through the same converters:
+    the text must be what it was, and still declare what it uses."""
+    if not _prev:
+        return
+    for lang in ("cpp", "python"):
+        first = _prev["outs"].get((lang, "returned"))
+        if first is None:
+            continue
+        wit = {**_prev["wit"], "language": lang, "entry": "returned", "repeated_after_another_file": True}
+        ctx.hit("file-converted-again-after-another")
+        ok, res = ctx.guard(f"conversion-fails:{lang}", wit, run_entry, _prev["path"], lang, "returned")
+        if not ok:
+            continue
+        ctx.mon("C19.same_text_when_converted_again")
+        if strip_ts(res[0]) != strip_ts(first):
+            import difflib  # noqa: PLC0415
+
+            diff = [x for x in difflib.unified_diff(strip_ts(first).splitlines(), strip_ts(res[0]).splitlines(), lineterm="", n=0)][:6]
+            ctx.violate(f"conversion:differs-when-repeated-after-another-file:{lang}", " | ".join(diff), wit)
+        if lang == "cpp":
+            try:
+                und = G.read_cpp(res[0])["undeclared"]
+                if und and not _prev["shipped"]:
+                    ctx.violate("cpp-output:symbol-not-declared-before-use", f"{und[:5]} (file converted again after another one)", wit)
+            except G.Unreadable as e:
+                ctx.violate("emitted-code:unreadable:cpp", str(e), wit)
+
+
 def check_text(ctx, text, wit0, label, shipped=False, cli=False, nontrivial=True):
     d = tempfile.mkdtemp(prefix="c19-", dir=core.WORK)
+    keep = False
     try:
         path = os.path.join(d, "model.txt")
         with open(path, "w", encoding="utf-8", newline="") as fh:
@@ -191,11 +224,40 @@ def check_text(ctx, text, wit0, label, shipped=False, cli=False, nontrivial=True
                 ctx.violate(mech, msg, wit0)
             if len(ctx.samples) < 2 and not shipped:
                 ctx.sample({"text": text, "amplitudes": [a["name"] for a in models["cpp"]["amps"]], "parameters": len(models["cpp"]["parameters"])})
+        again_after_another_file(ctx)
+        if _prev.get("dir"):
+            shutil.rmtree(_prev["dir"], ignore_errors=True)
+        _prev.clear()
+        if not shipped:
+            _prev.update({"dir": d, "path": path, "outs": outs, "wit": wit0, "shipped": shipped})
+            keep = True
+    finally:
+        if not keep:
+            shutil.rmtree(d, ignore_errors=True)
+
+
+def cpp_only_first(ctx, model):
+    """Give the two converters different histories: a related model (same spline resonances, other binning) goes through the C++ converter only."""
+    import copy  # noqa: PLC0415
+
+    m2 = copy.deepcopy(model)
+    m2["consts"] = [(n, {"Max": "2.5", "Min": "0.3"}.get(n.rsplit("::", 1)[1], v)) for n, v in m2["consts"]]
+    if m2["consts"] == model["consts"]:
+        return
+    ctx.hit("converters-with-different-histories")
+    d = tempfile.mkdtemp(prefix="c19pre-", dir=core.WORK)
+    try:
+        path = os.path.join(d, "model.txt")
+        with open(path, "w", encoding="utf-8", newline="") as fh:
+            fh.write(A.render(m2, random.Random(1)))
+        ctx.guard("conversion-fails:cpp", {"kind": "file", "model": A.model_to_json(m2), "style_seed": 1}, run_entry, path, "cpp", "returned")
     finally:
         shutil.rmtree(d, ignore_errors=True)
 
 
 def check_model(ctx, model, style_seed, cli=False):
+    if ctx.rng.random() < 0.5:
+        cpp_only_first(ctx, model)
     text = A.render(model, random.Random(style_seed))
     res = [r for ln in model["lines"] for r in A.resonances(ln["node"])]
     nontrivial = bool(model["params"]) and (any(r.ls for r in res) or any(ln["nums"][0] == 0 for ln in model["lines"]))
@@ -222,6 +284,8 @@ def run(ctx):
             text = f.read()
         ctx.hit("shipped-model")
         check_text(ctx, text, {"kind": "shipped", "file": "models/DtoKpipipi_v2.txt"}, "shipped", shipped=True, cli=not ctx.quick)
+    if _prev.get("dir"):
+        shutil.rmtree(_prev["dir"], ignore_errors=True)
 
 
 def replay(ctx, w):
